@@ -7,6 +7,7 @@ H1   Circuit::hpwl: every pin of every net contributes x(cell)+pinXOffset / y(ce
 W4   who-may-write the incremental model's position / bound / value state
 R5   updateCellPos recomputes every net of the moved cell (full range, no skip); recomputeNet writes the
      bound and the value together, value += (new extent) - (old extent)
+PI   code that accesses pin K of a net without a test needs the builder to filter nets with fewer than K+1 pins
 TP   the x (y) topology of the incremental model takes x (y) positions and x (y) pin offsets
 """
 import json
@@ -90,6 +91,7 @@ def run(ctx, rep, tier):
     rep.rule("H1", "Circuit::hpwl: all pins, same-axis position + offset, both extents accumulated", 5)
     rep.rule("W4", "who-may-write IncrNetModel position / bound / value state", 3)
     rep.rule("R5", "updateCellPos recomputes every net of the cell; recomputeNet updates bound and value together", 4)
+    rep.rule("PI", "implicit minimum pin count of the net models is guaranteed by the builders' filters", 2)
     rep.rule("TP", "incremental topologies built from same-axis positions and offsets", 4)
 
     # ---- T3 -------------------------------------------------------------------
@@ -142,6 +144,103 @@ def run(ctx, rep, tier):
     check_w4(ctx, rep)
     check_r5(ctx, rep)
     check_tp(ctx, rep)
+    check_pin_invariant(ctx, rep)
+
+
+# ---- PI -----------------------------------------------------------------------------
+
+def _lit_int(c):
+    if c[0] == "lit":
+        try:
+            return int(str(c[1]).rstrip("uUlL"))
+        except ValueError:
+            return None
+    return None
+
+
+def required_pins(ctx, prog, classes, limits_field_suffix="netLimits_"):
+    """Largest number of pins per net that some member function of `classes` assumes without testing it:
+    a pin accessed at a constant position K (pinCell(net, K), array[netLimits_[net] + K]) outside any guard on the pin count."""
+    need, where = 0, None
+    for f in prog.funcs.values():
+        if f.cls not in classes:
+            continue
+        for x in walk(f.body):
+            k = None
+            c = None
+            if x.get("kind") == "CXXMemberCallExpr":
+                ci = callee_info(x)
+                nm = ci["qname"].split("::")[-1]
+                if nm in ("pinCell", "pinOffset", "netPinOffset", "pinPosition") and len(ci["args"]) >= 2:
+                    k = _lit_int(canon(ci["args"][1]))
+            elif x.get("kind") == "CXXOperatorCallExpr" and callee_info(x)["name"] == "operator[]":
+                c = expand_locals(ctx, f, canon(x))
+                if c[0] == "index" and c[1][0] == "field" and c[1][1].split("::")[-1] in ("netCells_", "netPinOffsets_"):
+                    idx = c[2]
+                    if idx[0] == "bin" and idx[1] == "+" and idx[2][0] == "index" and idx[2][1][0] == "field" and idx[2][1][1].endswith(limits_field_suffix):
+                        k = _lit_int(idx[3])
+                    elif idx[0] == "index" and idx[1][0] == "field" and idx[1][1].endswith(limits_field_suffix):
+                        k = 0
+            if k is None:
+                continue
+            owner = ctx.eff.func_of_node(x) or f
+            guards = ctx.guards(owner, x) or []
+            counted = any("nbNetPins" in pretty(gc) or "nbPins" in pretty(gc) or "size()" in pretty(gc) or
+                          (limits_field_suffix in pretty(gc) and gc[0] == "bin") for gc, _v, _a, _b in guards)
+            if counted:
+                continue
+            if k + 1 > need:
+                need, where = k + 1, (owner, x)
+    return need, where
+
+
+def guaranteed_pins(ctx, f):
+    """Minimum number of pins of a stored net, from the filter `if (cells.size() <= M) return;` / `cells.empty()` that
+    dominates the stores of the builder's addNet."""
+    g = cfg_of(f)
+    s = ctx.eff.summary(f)
+    sites = [u.node for q, lst in s["writes"].items() if q.endswith("netCells_") for _x, u in lst]
+    if not sites:
+        return None
+    best = 0
+    n = g.node_for(sites[0])
+    for ast, val, _e in g.dom_edges(n):
+        c = canon(ast)
+        if c[0] == "call" and c[1] == "empty" and val is False:
+            best = max(best, 1)
+        if c[0] == "bin" and c[2][0] == "call" and c[2][1] == "size" and _lit_int(c[3]) is not None:
+            m = _lit_int(c[3])
+            if c[1] == "<=" and val is False:
+                best = max(best, m + 1)
+            elif c[1] == "<" and val is False:
+                best = max(best, m)
+            elif c[1] == ">" and val is True:
+                best = max(best, m + 1)
+            elif c[1] == ">=" and val is True:
+                best = max(best, m)
+    return best
+
+
+def check_pin_invariant(ctx, rep):
+    prog = ctx.prog
+    specs = [("incremental model", {CQ + "IncrNetModel"}, CQ + "IncrNetModelBuilder::addNet", 2),
+             ("continuous net model", {CQ + "NetModel", CQ + "MatrixCreator"}, CQ + "NetModel::addNet", 3)]
+    for label, classes, builder_q, nparams in specs:
+        builders = [f for f in prog.func(builder_q) if len(f.params) == nparams]
+        if not builders:
+            rep.unknown("PI", "-", None, label, "builder %s not found" % builder_q)
+            continue
+        have = guaranteed_pins(ctx, builders[0])
+        need, where = required_pins(ctx, prog, classes)
+        if have is None:
+            rep.unknown("PI", builders[0].decl, builders[0], label, "stores of the builder not found")
+        elif need <= have:
+            rep.holds("PI", builders[0].decl, builders[0], "%s: nets stored have >= %d pin(s); code assumes at most %d without testing" % (label, have, need))
+        else:
+            owner, x = where
+            rep.violation("PI", x, owner, "%s: %s assumes a net has >= %d pins" % (label, owner.short, need),
+                          "but %s stores nets with as few as %d pin(s): the access reads a pin of the next net (or past the end)" % (short(builder_q), have),
+                          key="%s|assumes %d pins, builder guarantees %d" % (owner.short, need, have))
 
 
 # ---- H1 ---------------------------------------------------------------------------
